@@ -79,6 +79,9 @@ inductive PyVal
   | dict (cls : DictCls) (es : PyEntries)
   | opaque (family payload : String)           -- arrays, numpy scalars, dtypes, masked arrays, RNGs, sparse, bytes, callables
   | objarray (shape : List Nat) (cells : PyVals)
+  /-- an object persisted through `__getstate__()` / `__dict__` (ObjectNode): determined by its class and
+  that state (contract: `cls.__new__(cls)` + `__setstate__` / `__dict__.update` rebuilds it) -/
+  | obj (cls : String) (state : PyVal)
   | property                                   -- a `property` object (only meaningful as a dict value)
   | unsupported (why : String)
 inductive PyVals
@@ -99,6 +102,7 @@ inductive Sch
   | ddict (cls factory : String) (main : Sch)                 -- DefaultDictNode
   | opaque (family payload : String)
   | objarr (shape : List Nat) (content : Schs)                -- NdArrayNode, type "json"
+  | obj (cls : String) (content : Sch)                        -- ObjectNode
 inductive Schs
   | nil
   | cons (x : Sch) (xs : Schs)
@@ -156,6 +160,7 @@ def encode : PyVal → Option Sch
     -- 0-d object arrays are refused; the nesting of `tolist()` is abstracted to the flat C-order cell list
     if shape.isEmpty then none
     else if cells.length = shape.foldl (· * ·) 1 then (encodeAll cells).map (.objarr shape) else none
+  | .obj cls state => (encode state).map (.obj cls)
   | .property => none
   | .unsupported _ => none
 def encodeAll : PyVals → Option Schs
@@ -221,6 +226,7 @@ def decode : Sch → Option PyVal
     match decodeAll content with
     | some cells => some (.objarray shape cells)
     | none => none
+  | .obj cls content => (decode content).map (.obj cls)
 def decodeAll : Schs → Option PyVals
   | .nil => some .nil
   | .cons x xs =>
